@@ -235,6 +235,15 @@ def run(ctx, deep, model_ok):
                 ctx.violation('failing-input', 'tag value %r of type %s: grammar says %s, gfapy says %s' % (
                     w, tag, GR.valid_value(tag, w), b == '1'), case, python=py_of(case))
                 break
+    # ---- 1b. values on the boundary of each numeric array subtype (and one step outside), as tags of a line
+    RANGES = {'c': (-128, 127), 'C': (0, 255), 's': (-32768, 32767), 'S': (0, 65535), 'i': (-2147483648, 2147483647), 'I': (0, 4294967295)}
+    for sub, (lo, hi) in RANGES.items():
+        for v in (lo, lo - 1, hi, hi + 1):
+            for val in ('%s,%d' % (sub, v), '%s,1,%d' % (sub, v), '%s,%d,0' % (sub, v)):
+                for ver, text in (('gfa1', 'S\tA\t*\txx:B:' + val), ('gfa2', 'S\tA\t5\t*\txx:B:' + val)):
+                    case = {'kind': 'line', 'text': text, 'version': ver, 'vlevel': rng.choice([1, 2, 3])}
+                    ctx.count(case, not (lo <= v <= hi))
+                    judge(ctx, case, oracle_line(case))
     # ---- 2. lines and mutants
     ndoc = 150 if deep else 40
     lterms, lmeta = [], []
